@@ -33,7 +33,8 @@ class FnMap:
             core.ctx().prove("pre:dict-read-with-a-key-that-is-not-None", z3.BoolVal(False), kind="pre")      # discharged only where the path is infeasible
             raise KeyError(None)
         k = lift(k)
-        core.ctx().prove("pre:dict-read-only-for-a-key-that-was-written", self.dom(k), kind="pre")
+        c = core.ctx()
+        c.prove("pre:dict-read-only-for-a-key-that-was-written", z3.Implies(z3.And(*c.qguards), self.dom(k)) if c.qguards else self.dom(k), kind="pre")
         return Sym(self.fn(k))
     def __setitem__(self, k, v):
         k, v, of, od = lift(k), lift(v), self.fn, self.dom
@@ -491,5 +492,257 @@ def u_decompose():
                 abstractions=["nodes are integers", "the remaining values are a function of the edge; the reported paths / weights are recorded in ghost functions; the weight through an edge is a ghost prefix sum"])
 
 
+def u_edge_max_reachable():
+    """stDiGraph.compute_edge_max_reachable_value: per-edge maximum over the edge itself, everything reachable from its head, everything reaching its tail,
+    computed by two DPs over the SCC condensation.
+    ensures  local_out[c] / local_in[c] = max(0, weights of the edges whose tail / head lies in SCC c)            (>= every such weight, 0 or attained)
+             max_desc satisfies  max_desc[c] = max(local_out[c], max_desc of the successors of c)                   (fix-point, >= / attained form)
+             max_anc  satisfies  max_anc[s]  = max(local_in[s],  max_anc of the predecessors of s)                  (fix-point, >= / attained form)
+             result[(u,v)] = max(weight(u,v), max_desc[scc(v)], max_anc[scc(u)])  for every edge, and nothing else is in the result
+    LM5 (not proved): on the condensation DAG these fix-points are unique and equal the maxima over reachable / reaching edges; the bounded part compares with a search."""
+    st = {}
+    CN, CIDX, ISC = z3.Function("scc_at", INT, INT), z3.Function("scc_index", INT, INT), z3.Function("is_scc", INT, BOOL)
+    CPOS, CTOP = z3.Function("scc_pos_in_topological_order", INT, INT), z3.Function("scc_at_pos", INT, INT)
+    CDEG, CSUCC = z3.Function("scc_out_degree", INT, INT), z3.Function("scc_successor", INT, INT, INT)
+    CEDGE = z3.Function("condensation_edge", INT, INT, BOOL)
+    MAPF = z3.Function("scc_of", INT, INT)
+    EU, EV, WE = z3.Function("edge_tail", INT, INT), z3.Function("edge_head", INT, INT), z3.Function("edge_weight", INT, REAL)
+
+    class PairMap:
+        def __init__(self, fn, dom): self.fn, self.dom = fn, dom
+        def __getitem__(self, k):
+            a, b = lift(k[0]), lift(k[1])
+            core.ctx().prove("pre:dict-read-only-for-a-key-that-was-written", self.dom(a, b), kind="pre")
+            return Sym(self.fn(a, b))
+        def __setitem__(self, k, v):
+            a, b, v, of, od = lift(k[0]), lift(k[1]), lift(v), self.fn, self.dom
+            v = z3.ToReal(v) if v.sort() == INT else v
+            self.fn = lambda x, y: z3.If(z3.And(x == a, y == b), v, of(x, y))
+            self.dom = lambda x, y: z3.Or(z3.And(x == a, y == b), od(x, y))
+        @classmethod
+        def empty(cls): return cls(lambda x, y: z3.RealVal(0), lambda x, y: z3.BoolVal(False))
+        @classmethod
+        def fresh(cls, name):
+            c = core.ctx()
+            f, d = z3.Function(c.name(name), INT, INT, REAL), z3.Function(c.name(name + ".dom"), INT, INT, BOOL)
+            return cls(lambda x, y: f(x, y), lambda x, y: d(x, y))
+
+    def dictcomp(fn, it, flt):
+        if flt is not None:
+            raise Unsupported("filtered dict comprehension")
+        c = core.ctx()
+        u = z3.Int(c.name("dc"))
+        with c.quantified(ISC(u)):
+            k, v = fn(Sym(u))
+        if not z3.eq(z3.simplify(lift(k)), u):
+            raise Unsupported("dict comprehension key")
+        v = lift(v) if isinstance(v, Sym) else z3.RealVal(str(v))
+        v = z3.ToReal(v) if v.sort() == INT else v
+        return FnMap(lambda x: z3.substitute(v, (u, x)), lambda x: ISC(x))
+
+    def mx(a, b): return z3.If(a >= b, a, b)
+
+    def local_state(m, ends, d):
+        """m = local_out (ends = EU) or local_in (ends = EV) after the first d edges"""
+        cc, j = z3.Ints("lc lj")
+        return z3.And(z3.ForAll([cc], z3.And(m.dom(cc) == ISC(cc), z3.Implies(ISC(cc), m.fn(cc) >= 0))),
+                      z3.ForAll([j], z3.Implies(z3.And(j >= 0, j < d), m.fn(MAPF(ends(j))) >= WE(j))),
+                      z3.ForAll([cc], z3.Implies(ISC(cc), z3.Or(m.fn(cc) == 0, z3.Exists([j], z3.And(j >= 0, j < d, MAPF(ends(j)) == cc, m.fn(cc) == WE(j)))))))
+
+    def inv_edges(ns, seq, done):
+        d, ew = lift(done), ns["edge_weight"]
+        j = z3.Int("ej")
+        return {"edge_weight-holds-the-weight-of-every-edge-seen": z3.ForAll([j], z3.Implies(z3.And(j >= 0, j < d), z3.And(ew.dom(EU(j), EV(j)), ew.fn(EU(j), EV(j)) == WE(j)))),
+                "local_out[c]=max(0,-weights-of-the-edges-seen-with-tail-in-c)": local_state(ns["local_out"], EU, d),
+                "local_in[c]=max(0,-weights-of-the-edges-seen-with-head-in-c)": local_state(ns["local_in"], EV, d)}
+
+    def desc_fix(md, lo, cc):
+        j = z3.Int("dj")
+        return z3.And(md.fn(cc) >= lo.fn(cc), z3.ForAll([j], z3.Implies(z3.And(j >= 0, j < CDEG(cc)), md.fn(cc) >= md.fn(CSUCC(cc, j)))),
+                      z3.Or(md.fn(cc) == lo.fn(cc), z3.Exists([j], z3.And(j >= 0, j < CDEG(cc), md.fn(cc) == md.fn(CSUCC(cc, j))))))
+
+    def inv_desc_outer(ns, seq, done):
+        d, md, lo, n = lift(done), ns["max_desc"], ns["local_out"], st["nC"]
+        cc = z3.Int("oc")
+        rpos = lambda x: n - 1 - CPOS(x)             # position in the reversed topological order
+        return {"processed-SCCs:max_desc=max(local_out,-max_desc-of-the-successors);-the-others-still-hold-local_out":
+                    z3.ForAll([cc], z3.And(md.dom(cc) == ISC(cc), z3.Implies(ISC(cc), z3.If(rpos(cc) < d, desc_fix(md, lo, cc), md.fn(cc) == lo.fn(cc)))))}
+
+    def enter_desc_inner(ns, it=None):
+        if st.get("concrete"):
+            return
+        st["md0"], st["cur"] = ns["max_desc"].fn, lift(ns["c"])
+
+    def inv_desc_inner(ns, seq, done):
+        e, md, lo, cur, md0 = lift(done), ns["max_desc"], ns["local_out"], st["cur"], st["md0"]
+        j, w = z3.Ints("nj nw")
+        return {"max_desc[c]=max(local_out[c],-max_desc-of-the-successors-seen-so-far)":
+                    z3.And(md.fn(cur) >= md0(cur), z3.ForAll([j], z3.Implies(z3.And(j >= 0, j < e), md.fn(cur) >= md0(CSUCC(cur, j)))),
+                           z3.Or(md.fn(cur) == md0(cur), z3.Exists([j], z3.And(j >= 0, j < e, md.fn(cur) == md0(CSUCC(cur, j)))))),
+                "other-entries-unchanged": z3.ForAll([w], z3.And(md.dom(w) == ISC(w), z3.Implies(w != cur, md.fn(w) == md0(w))))}
+
+    def anc_state(ma, li, d):
+        cc, s, j, p = z3.Ints("ac as aj ap")
+        return z3.And(z3.ForAll([cc], z3.And(ma.dom(cc) == ISC(cc), z3.Implies(ISC(cc), ma.fn(cc) >= li.fn(cc)))),
+                      z3.ForAll([cc, j], z3.Implies(z3.And(ISC(cc), CPOS(cc) < d, j >= 0, j < CDEG(cc)), ma.fn(CSUCC(cc, j)) >= ma.fn(cc))),
+                      z3.ForAll([s], z3.Implies(ISC(s), z3.Or(ma.fn(s) == li.fn(s),
+                                                               z3.Exists([p, j], z3.And(ISC(p), CPOS(p) < d, j >= 0, j < CDEG(p), CSUCC(p, j) == s, ma.fn(s) == ma.fn(p)))))))
+
+    def inv_anc_outer(ns, seq, done):
+        return {"max_anc:every-SCC-holds-at-least-local_in;-processed-SCCs-have-pushed-their-value-to-their-successors;-every-value-is-local_in-or-a-processed-predecessor's":
+                    anc_state(ns["max_anc"], ns["local_in"], lift(done))}
+
+    def enter_anc_inner(ns, it=None):
+        if st.get("concrete"):
+            return
+        st["ma0"], st["cur"] = ns["max_anc"].fn, lift(ns["c"])
+
+    def inv_anc_inner(ns, seq, done):
+        e, ma, cur, ma0 = lift(done), ns["max_anc"], st["cur"], st["ma0"]
+        j, x = z3.Ints("mj mx")
+        return {"successors-seen-so-far-hold-at-least-max_anc[c];-every-entry-is-unchanged-or-a-seen-successor-raised-to-max_anc[c]":
+                    z3.And(z3.ForAll([j], z3.Implies(z3.And(j >= 0, j < e), ma.fn(CSUCC(cur, j)) >= ma0(cur))),
+                           z3.ForAll([x], z3.And(ma.dom(x) == ISC(x), ma.fn(x) >= ma0(x),
+                                                 z3.Or(ma.fn(x) == ma0(x), z3.Exists([j], z3.And(j >= 0, j < e, CSUCC(cur, j) == x, ma.fn(x) == ma0(cur)))))))}
+
+    def want(ns_or, j):
+        md, ma = ns_or["max_desc"], ns_or["max_anc"]
+        return mx(mx(WE(j), md.fn(MAPF(EV(j)))), ma.fn(MAPF(EU(j))))
+
+    def inv_result(ns, seq, done):
+        d, res = lift(done), ns["result"]
+        j, a, b = z3.Ints("rj ra rb")
+        return {"result-holds-max(weight,-max_desc[scc(head)],-max_anc[scc(tail)])-for-every-edge-seen-and-nothing-else":
+                    z3.And(z3.ForAll([j], z3.Implies(z3.And(j >= 0, j < d), z3.And(res.dom(EU(j), EV(j)), res.fn(EU(j), EV(j)) == want(ns, j)))),
+                           z3.ForAll([a, b], z3.Implies(res.dom(a, b), z3.Exists([j], z3.And(j >= 0, j < d, EU(j) == a, EV(j) == b)))))}
+
+    def h(c, f):
+        nC, nE = c.fresh_const("n_sccs", INT), c.fresh_const("n_edges", INT)
+        st.update(nC=nC, nE=nE)
+        j, j2, x = z3.Ints("hj hj2 hx")
+        c.assume(z3.And(nC >= 0, nE >= 0))
+        c.assume(z3.ForAll([j], z3.Implies(z3.And(j >= 0, j < nC), z3.And(ISC(CN(j)), CIDX(CN(j)) == j))))                                 # C.nodes() lists the SCCs ...
+        c.assume(z3.ForAll([x], z3.Implies(ISC(x), z3.And(CIDX(x) >= 0, CIDX(x) < nC, CN(CIDX(x)) == x))))                                 # ... all of them, each once
+        c.assume(z3.ForAll([x], z3.Implies(ISC(x), z3.And(CPOS(x) >= 0, CPOS(x) < nC, CTOP(CPOS(x)) == x))))                               # A2 topological order: a bijection ...
+        c.assume(z3.ForAll([j], z3.Implies(z3.And(j >= 0, j < nC), z3.And(ISC(CTOP(j)), CPOS(CTOP(j)) == j))))
+        c.assume(z3.ForAll([x], CDEG(x) >= 0))
+        c.assume(z3.ForAll([x, j], z3.Implies(z3.And(ISC(x), j >= 0, j < CDEG(x)), z3.And(ISC(CSUCC(x, j)), CPOS(CSUCC(x, j)) > CPOS(x)))))  # ... with successors later
+        c.assume(z3.ForAll([j], z3.Implies(z3.And(j >= 0, j < nE), z3.And(ISC(MAPF(EU(j))), ISC(MAPF(EV(j)))))))                          # mapping sends nodes to SCCs
+        c.assume(z3.ForAll([j, j2], z3.Implies(z3.And(j >= 0, j < j2, j2 < nE), z3.Or(EU(j) != EU(j2), EV(j) != EV(j2)))))                  # a digraph lists each edge once
+
+        class Mapping:
+            def __getitem__(self, u): return Sym(MAPF(lift(u)))
+
+        class Data:
+            def __init__(self, j): self.j = lift(j)
+            def get(self, key, default=None): return Sym(WE(self.j))          # a missing attribute reads as the default 0.0: WE(j) is that value
+
+        class Cond:
+            graph = {"mapping": Mapping()}
+            @staticmethod
+            def nodes(): return SymSeq(nC, lambda q: Sym(CN(lift(q))), SInt, "C.nodes")
+            @staticmethod
+            def successors(x):
+                x = lift(x)
+                return SymSeq(CDEG(x), lambda q: Sym(CSUCC(x, lift(q))), SInt, "C.successors")
+
+        class Me(Tracked):
+            pass
+        me = Me()
+        me._condensation = Cond()
+        def edges(data=False):
+            if data:
+                return SymSeq(nE, lambda q: (Sym(EU(lift(q))), Sym(EV(lift(q))), Data(q)), None, "edges(data)")
+            return SymSeq(nE, lambda q: (Sym(EU(lift(q))), Sym(EV(lift(q)))), None, "edges")
+        me.edges = edges
+        st["dicts"] = iter(["edge_weight", "result"])
+        res = f(me, "flow")
+        ns = st["final"]
+        lo, li, md, ma = ns["local_out"], ns["local_in"], ns["max_desc"], ns["max_anc"]
+        cc, a, b = z3.Ints("pc pa pb")
+        c.prove("post:local_out/local_in=max(0,-weights-of-the-edges-with-tail/head-in-the-SCC)", z3.And(local_state(lo, EU, nE), local_state(li, EV, nE)), prop=P)
+        c.prove("post:max_desc-satisfies-max_desc[c]=max(local_out[c],-max_desc-of-the-successors)", z3.ForAll([cc], z3.Implies(ISC(cc), desc_fix(md, lo, cc))), prop=P)
+        c.prove("post:max_anc-satisfies-max_anc[s]=max(local_in[s],-max_anc-of-the-predecessors)", anc_state(ma, li, nC), prop=P)
+        c.prove("post:result[(u,v)]=max(weight(u,v),-max_desc[scc(v)],-max_anc[scc(u)])-for-every-edge-and-nothing-else",
+                z3.And(z3.BoolVal(isinstance(res, PairMap)),
+                       z3.ForAll([j], z3.Implies(z3.And(j >= 0, j < nE), z3.And(res.dom(EU(j), EV(j)), res.fn(EU(j), EV(j)) == want(ns, j)))) if isinstance(res, PairMap) else z3.BoolVal(False),
+                       z3.ForAll([a, b], z3.Implies(res.dom(a, b), z3.Exists([j], z3.And(j >= 0, j < nE, EU(j) == a, EV(j) == b)))) if isinstance(res, PairMap) else z3.BoolVal(False)), prop=P)
+
+    def dict_lit():
+        if st.get("concrete"):
+            return {}
+        which = next(st["dicts"])
+        return PairMap.empty()
+
+    # ---- concrete instances: the real stDiGraph of small digraphs (with cycles), compared with a plain search: LM5 decided on them
+    GRAPHS = [
+        [("s", "a", 1), ("a", "b", 1), ("b", "c", 5), ("c", "a", 3), ("c", "d", 2)],
+        [("s", "a", 4), ("a", "t", 1), ("s", "b", 2), ("b", "t", 7)],
+        [("s", "a", 1), ("a", "b", 2), ("b", "a", 9), ("b", "t", 3), ("s", "t", 4)],
+        [("s", "a", 3), ("a", "a", 8), ("a", "t", 2)],
+        [("s", "x", 1), ("x", "y", 1), ("y", "x", 1), ("y", "z", 6), ("z", "w", 1), ("w", "z", 2), ("w", "t", 1), ("s", "t", 5)],
+        [("s", "a", 2.5), ("a", "b", 0.5), ("b", "t", 1.5), ("a", "t", 0.0)],
+        [("p", "q", 7), ("q", "t", 1), ("s", "q", 2), ("s", "r", 3), ("r", "t", 4)],
+    ]
+
+    def instances():
+        out = []
+        for E in GRAPHS:
+            def hc(c, f, E=E):
+                import networkx
+                import flowpaths as fp
+                g = networkx.DiGraph()
+                for a, b, w in E:
+                    g.add_edge(a, b, flow=w)
+                me = fp.stDiGraph(g)
+                st.update(concrete=True)
+                try:
+                    res = f(me, "flow")
+                finally:
+                    st.update(concrete=False)
+                wt = {(a, b): float(d.get("flow", 0.0)) for a, b, d in me.edges(data=True)}
+                ok, bad = True, None
+                for (u, v) in me.edges():
+                    fwd = networkx.descendants(me, v) | {v}
+                    bwd = networkx.ancestors(me, u) | {u}
+                    best = max([wt[(u, v)]] + [w for (a, b), w in wt.items() if a in fwd] + [w for (a, b), w in wt.items() if b in bwd])
+                    if res.get((u, v)) != best:
+                        ok, bad = False, ((u, v), res.get((u, v)), best)
+                c.prove("instance:value=maximum-over-the-edge,-the-edges-reachable-from-its-head-and-the-edges-reaching-its-tail-(plain-search)", z3.BoolVal(ok), prop=P, info=str(bad))
+                c.prove("instance:one-entry-per-edge-of-the-s-t-graph", z3.BoolVal(set(res) == set(me.edges())), prop=P)
+            out.append(("digraph %s" % (E,), hc))
+        return out
+
+    def rec(inv):
+        def f_(ns, seq, done):
+            st["final"] = ns
+            return inv(ns, seq, done)
+        return f_
+
+    class NX:
+        @staticmethod
+        def topological_sort(C):
+            if st.get("concrete"):
+                import networkx
+                return networkx.topological_sort(C)
+            return SymSeq(st["nC"], lambda q: Sym(CTOP(lift(q))), SInt, "topological_sort")
+
+    fm = lambda nm: (lambda old: FnMap.fresh(nm, REAL))
+    pm = lambda nm: (lambda old: PairMap.fresh(nm))
+    tmp = ("u", "v", "data", "w", "cu", "cv", "s")
+    loops = {0: dict(inv=inv_edges, prop=P, keep=tmp, havoc={"edge_weight": pm("edge_weight"), "local_out": fm("local_out"), "local_in": fm("local_in")}),
+             1: dict(inv=inv_desc_outer, prop=P, keep=tmp, havoc={"max_desc": fm("max_desc")}),
+             2: dict(inv=inv_desc_inner, prop=P, keep=tmp, on_entry=enter_desc_inner, havoc={"max_desc": fm("max_desc")}),
+             3: dict(inv=inv_anc_outer, prop=P, keep=tmp, havoc={"max_anc": fm("max_anc")}),
+             4: dict(inv=inv_anc_inner, prop=P, keep=tmp, on_entry=enter_anc_inner, havoc={"max_anc": fm("max_anc")}),
+             5: dict(inv=rec(inv_result), prop=P, keep=tmp, havoc={"result": pm("result")})}
+    return Unit("flowpaths/stdigraph.py", "stDiGraph.compute_edge_max_reachable_value", h, globs=dict(nx=NX, reversed=lambda s_: s_[::-1]), loops=loops, props=[P], instances=instances,
+                literals=dict(dict=dict_lit, dictcomp=dictcomp),
+                assumptions=["A2 networkx: C.nodes() lists every SCC once; topological_sort(C) lists every SCC once with successors later; C.successors(c) enumerates the condensation edges; "
+                             "C.graph['mapping'] sends a node to its SCC; edges() lists each edge once",
+                             "LM5 (not proved): on the condensation DAG the two fix-points are unique and equal the maximum weight over the edges reachable from / reaching the SCC"],
+                abstractions=["nodes and SCCs are integers; dicts are functions with a written-keys predicate; a missing weight attribute is its default value"])
+
+
 def all_units():
-    return [u_max_bottleneck_path(), u_decompose()]
+    return [u_max_bottleneck_path(), u_decompose(), u_edge_max_reachable()]
